@@ -69,3 +69,6 @@ M("c03-deadline-setter-rearms-only-pending-timer", "C03", A, "CancelScope.deadli
 M("c03-thread-token-wait-under-shield", "C03", A, "AsyncIOBackend.run_sync_in_worker_thread",
   "        async with limiter or cls.current_default_thread_limiter():\n            with CancelScope(shield=not abandon_on_cancel) as scope:",
   "        with CancelScope(shield=not abandon_on_cancel) as scope:\n            async with limiter or cls.current_default_thread_limiter():", ["R03-k"])
+
+# from seeded change C03/f (round 3)
+M("c03-cancellable-alias-dropped", "C03", "to_thread.py", "run_sync", "        abandon_on_cancel = cancellable\n", "", ["R03-m"])
